@@ -16,6 +16,7 @@ thresholds (cn 3 on (0.2, 0.7], cn 2 on (0.7, 1]): exactly that region is report
 signature of the open known finding; any other decrease is a normal violation."""
 import os, json, math
 from fractions import Fraction as F
+import math
 import numpy as np
 import pandas as pd
 import vlib
@@ -73,7 +74,7 @@ def py_step(v, ts, k, r):
 # running the code
 
 
-def make_cna(rows, with_baf):
+def make_cna(rows, with_baf, index_mode='default'):
     from cnvlib.cnary import CopyNumArray
     d = {
         'chromosome': [r['chrom'] for r in rows],
@@ -86,12 +87,23 @@ def make_cna(rows, with_baf):
     }
     if with_baf:
         d['baf'] = np.array([NAN if isnan(r.get('baf')) else r['baf'] for r in rows], dtype=np.float64)
-    return CopyNumArray(pd.DataFrame(d), {'sample_id': 'gen'})
+    df = pd.DataFrame(d)
+    if index_mode == 'gaps':          # labels of a boolean-mask subset (arr[mask], drop_low_coverage())
+        df.index = [3 * i + (i % 2) + 2 for i in range(len(rows))]
+    elif index_mode == 'permuted':    # labels left by sort() on a table built in another order
+        n = len(rows)
+        df.index = [(7 * i + 3) % n if math.gcd(7, n) == 1 else (n - 1 - i) for i in range(n)]
+    return CopyNumArray(df, {'sample_id': 'gen'})
+
+
+def index_mode_of(cfg, rows):
+    """row labels are not part of the property: vary them deterministically per table"""
+    return ('default', 'gaps', 'permuted')[(len(rows) + cfg['ploidy'] + (1 if cfg['hapx'] else 0)) % 3]
 
 
 def run_code(cfg, rows):
     from cnvlib import call
-    arr = make_cna(rows, cfg['with_baf'])
+    arr = make_cna(rows, cfg['with_baf'], cfg.get('index') or index_mode_of(cfg, rows))
     kw = dict(method='threshold', ploidy=cfg['ploidy'], is_haploid_x_reference=cfg['hapx'])
     if cfg['thresholds'] is not None:
         kw['thresholds'] = tuple(cfg['thresholds']) if cfg.get('as_tuple', True) else np.array(cfg['thresholds'])
